@@ -73,6 +73,10 @@ def Expr.ty : Expr → Option Ty
     match a.ty with
     | some x => if objTy x then some .text else none
     | none => none
+  | .iter a =>
+    match a.ty with
+    | some x => if objTy x then some (.list false) else none
+    | none => none
 def tyList : List Expr → Bool
   | [] => true
   | e :: es => e.ty.isSome && tyList es
@@ -112,6 +116,7 @@ def ref : Expr → Except Err Cells
   | .fixedLen a n => do
     let c ← ref a
     .ok (pyFixedLen c n)
+  | .iter a => ref a
 def refList : List Expr → Except Err (List Cells)
   | [] => .ok []
   | e :: es => do
@@ -155,11 +160,26 @@ theorem pyIAdd_sim (x y : Part) (τ : Ty) (hx : x.Canon) (h : iaddTy x.ty y.ty =
      · first | exact iadd_canon _ _ hx | exact construct_canon _
      · simp [iadd_cells, radd_cells, construct_cells, Part.cellsList, Part.cells])
 
-theorem chunk_getIndex_eq (c : Chunk) (i : Int) :
-    c.getIndex i = (pyIndex c.cells i).map (fun x => (⟨x.2, [x.1]⟩ : Chunk)) := by
-  unfold Chunk.getIndex
-  rw [Chunk.cells, pyIndex_map]
-  cases pyIndex c.text i <;> rfl
+theorem canonList_texts (l : Cells) : Part.CanonList ((l.map cellText).map Part.text) := by
+  induction l with
+  | nil => trivial
+  | cons x xs ih => exact ⟨fromChunks_canon _, ih⟩
+
+theorem canonList_chunks (l : List Chunk) : Part.CanonList (l.map Part.chunk) := by
+  induction l with
+  | nil => trivial
+  | cons x xs ih => exact ⟨trivial, ih⟩
+
+theorem cellsList_texts (l : Cells) : Part.cellsList ((l.map cellText).map Part.text) = l := by
+  induction l with
+  | nil => rfl
+  | cons x xs ih => simp only [List.map_cons, Part.cellsList, ih, Part.cells, cellText_cells]; rfl
+
+theorem cellsList_chunks (l : Cells) :
+    Part.cellsList ((l.map (fun x => (⟨x.2, [x.1]⟩ : Chunk))).map Part.chunk) = l := by
+  induction l with
+  | nil => rfl
+  | cons x xs ih => simp only [List.map_cons, Part.cellsList, ih, Part.cells, Chunk.cells]; rfl
 
 theorem Sim.inv {τ : Ty} {x : Except Fail Part} {r : Except Err Cells} (h : Sim τ x r) :
     (∃ p c, x = .ok p ∧ r = .ok c ∧ p.ty = τ ∧ p.Canon ∧ p.cells = c) ∨
@@ -350,6 +370,30 @@ theorem eval_sim (e : Expr) (τ : Ty) (h : e.ty = some τ) : Sim τ (eval e) (re
           | list tp' ps' => rw [← hpt, Part.ty, not_objTy_list] at hobj; cases hobj
         · simp only [eval, ref, hea, hra, error_bind]; exact rfl
       · cases h
+  | iter a =>
+    simp only [Expr.ty] at h
+    cases hta : a.ty with
+    | none => simp [hta] at h
+    | some x =>
+      simp only [hta] at h
+      split at h
+      · next hobj =>
+        cases h
+        rcases (eval_sim a x hta).inv with ⟨p, c, hea, hra, hpt, hpc, hpcells⟩ | ⟨e, hea, hra⟩
+        · simp only [eval, ref, hea, hra, ok_bind]
+          cases p with
+          | text t =>
+            show Sim _ (liftErr (t.iter.map fun ts => Part.list false (ts.map Part.text))) _
+            rw [iter_spec t hpc.2]
+            exact ⟨rfl, canonList_texts _, by rw [← hpcells]; exact cellsList_texts _⟩
+          | chunk ch =>
+            show Sim _ (liftErr (ch.iter.map fun cs => Part.list false (cs.map Part.chunk))) _
+            rw [chunk_iter_spec]
+            exact ⟨rfl, canonList_chunks _, by rw [← hpcells]; exact cellsList_chunks _⟩
+          | str s => rw [← hpt, Part.ty, not_objTy_str] at hobj; cases hobj
+          | list tp' ps' => rw [← hpt, Part.ty, not_objTy_list] at hobj; cases hobj
+        · simp only [eval, ref, hea, hra, error_bind]; exact rfl
+      · cases h
 theorem evalList_sim (es : List Expr) (h : tyList es = true) : SimList (evalList es) (refList es) := by
   cases es with
   | nil => exact ⟨trivial, rfl⟩
@@ -424,6 +468,7 @@ theorem ref_error (e : Expr) (err : Err) (h : ref e = .error err) : err = .index
     rcases bind_error_inv h with h1 | ⟨_, _, h2⟩
     · exact ref_error a err h1
     · cases h2
+  | iter a => simp only [ref] at h; exact ref_error a err h
 theorem refList_error (es : List Expr) (err : Err) (h : refList es = .error err) : err = .indexError := by
   cases es with
   | nil => cases h
